@@ -51,6 +51,14 @@
 class TestClient : public QXmppClient
 {
 public:
+    // what QXmppClient::connectToServer() does, but with an explicit list of candidate addresses (the list an SRV lookup
+    // or the built-in "domain:5223 (TLS), domain:5222" fall-back would produce): on a connection error the client moves on
+    // to the next candidate
+    static void connectToAddressList(QXmppClient &c, const QXmppConfiguration &cfg, std::vector<QXmpp::Private::ServerAddress> list)
+    {
+        c.d->stream->configuration() = cfg;
+        c.d->stream->d->connectToAddressList(std::move(list));
+    }
     explicit TestClient(QXmppClient::InitialExtensions ext = QXmppClient::NoExtensions)
         : QXmppClient(ext)
     {
